@@ -1,0 +1,235 @@
+//go:build verif
+
+// Contracts for package measurements, read by /verif's gcv (comment-only file).
+package measurements
+
+// ---------------------------------------------------------------------------------------------
+// MinimumMeasurement: value == 0 encodes "no sample since reset"; for positive samples Add is the
+// inductive definition of "minimum of the samples since reset".
+//@ type MinimumMeasurement
+//@   guarded mu: value
+//@   inv[C15,C18] nonneg: isFinite(this.value) && 0.0 <= this.value
+
+//@ func (*MinimumMeasurement).Add
+//@   requires sample_ok: isFinite(sample) && 0.0 <= sample
+//@   maintains[C04,C15,C18] m
+//@   ensures[C15,C18] min: m.value == ite(old(m.value) == 0.0 || sample < old(m.value), sample, old(m.value))
+//@   ensures[C18] returns_value: ret0 == m.value
+//@   ensures[C18] flag: ret1 <==> m.value != old(m.value)
+//@   assigns m.value
+//@   owns[C17]
+
+//@ func (*MinimumMeasurement).Get
+//@   ensures[C15,C18] value: result == m.value
+//@   assigns nothing
+//@   owns[C17]
+
+//@ func (*MinimumMeasurement).Reset
+//@   maintains[C15,C18] m
+//@   ensures[C15,C18] cleared: m.value == 0.0
+//@   assigns m.value
+//@   owns[C17]
+
+// ---------------------------------------------------------------------------------------------
+//@ type SingleMeasurement
+//@   guarded mu: value
+
+//@ func (*SingleMeasurement).Add
+//@   ensures[C18] latest: m.value == value && ret0 == value && ret1
+//@   assigns m.value
+//@   owns[C17]
+
+//@ func (*SingleMeasurement).Get
+//@   ensures[C18] value: result == m.value
+//@   assigns nothing
+//@   owns[C17]
+
+//@ func (*SingleMeasurement).Reset
+//@   ensures[C18] cleared: m.value == 0.0
+//@   assigns m.value
+//@   owns[C17]
+
+// ---------------------------------------------------------------------------------------------
+// ExponentialAverageMeasurement. Ghost lo/hi are the smallest and largest sample since reset
+// (meaningful once count > 0); sum/count is the arithmetic mean during warm-up.
+//@ ghost ExponentialAverageMeasurement.lo float64
+//@ ghost ExponentialAverageMeasurement.hi float64
+//@ type ExponentialAverageMeasurement
+//@   guarded mu: value, sum, count
+//@   immutable: window, warmupWindow
+//@   inv[C18] cfg: this.window >= 1 && this.warmupWindow >= 1 && this.window < 1<<31 && this.warmupWindow < 1<<31
+//@   inv[C18] count: 0 <= this.count && this.count <= this.warmupWindow
+//@   inv[C04,C18] finite: isFinite(this.value) && isFinite(this.sum) && isFinite(this.lo) && isFinite(this.hi)
+//@   inv[C18] empty: this.count == 0 ==> this.value == 0.0 && this.sum == 0.0
+//@   inv[C18] hull: this.count > 0 ==> this.lo <= this.value && this.value <= this.hi
+//@   inv[C18] warm_sum: this.count > 0 ==> float64(this.count) * this.lo <= this.sum && this.sum <= float64(this.count) * this.hi
+
+//@ func (*ExponentialAverageMeasurement).Add
+//@   requires sample_ok: isFinite(value) && 0.0 <= value
+//@   maintains[C04,C18] m
+//@   ghostset m.lo = ite(old(m.count) == 0, value, min(old(m.lo), value))
+//@   ghostset m.hi = ite(old(m.count) == 0, value, max(old(m.hi), value))
+//@   ensures[C18] smallest_largest: m.lo == ite(old(m.count) == 0, value, min(old(m.lo), value)) && m.hi == ite(old(m.count) == 0, value, max(old(m.hi), value))
+//@   ensures[C18] mean_in_warmup: old(m.count) < m.warmupWindow ==> m.count == old(m.count) + 1 && m.sum == old(m.sum) + value && m.value == m.sum / float64(m.count)
+//@   ensures[C18] ema_after: old(m.count) >= m.warmupWindow ==> m.count == old(m.count) && m.sum == old(m.sum) && m.value == old(m.value) * (1.0 - 2.0 / float64(m.window + 1)) + value * (2.0 / float64(m.window + 1))
+//@   ensures[C18] returns_value: ret0 == m.value && ret1
+//@   ensures[C08,C18] between: old(m.count) >= m.warmupWindow ==> min(old(m.value), value) <= m.value && m.value <= max(old(m.value), value)
+//@   assigns m.value, m.sum, m.count, m.lo, m.hi
+//@   owns[C17]
+//@   safety[C04]
+
+//@ func (*ExponentialAverageMeasurement).Get
+//@   ensures[C18] value: result == m.value
+//@   assigns nothing
+//@   owns[C17]
+
+//@ func (*ExponentialAverageMeasurement).Reset
+//@   ensures[C18] like_new: m.value == 0.0 && m.count == 0 && m.sum == 0.0
+//@   ensures[C18] config_kept: m.window == old(m.window) && m.warmupWindow == old(m.warmupWindow)
+//@   assigns m.value, m.sum, m.count
+//@   owns[C17]
+
+//@ func factor
+//@   inline
+
+// ---------------------------------------------------------------------------------------------
+//@ type SimpleExponentialMovingAverage
+//@   guarded mu: alpha, seenSamples, value
+//@   immutable: initialAlpha, minSamples
+//@   inv[C18] cfg: isFinite(this.alpha) && 0.0 <= this.alpha && this.alpha <= 1.0 && this.alpha == this.initialAlpha
+//@   inv[C18] seen: 0 <= this.seenSamples && (this.seenSamples <= this.minSamples || this.seenSamples == 0)
+//@   inv[C18] finite: isFinite(this.value)
+
+//@ func NewSimpleExponentialMovingAverage
+//@   ensures[C18] rejects: (alpha < 0.0 || alpha > 1.0) ==> ret0 == nil && ret1 != nil
+//@   ensures[C18] fresh_state: 0.0 <= alpha && alpha <= 1.0 ==> ret0 != nil && ret1 == nil && ret0.alpha == alpha && ret0.initialAlpha == alpha && ret0.seenSamples == 0 && ret0.value == 0.0
+//@   assigns nothing
+
+//@ func (*SimpleExponentialMovingAverage).add
+//@   requires sample_ok: isFinite(value)
+//@   requires locked: held(m.mu)
+//@   maintains[C18] m
+//@   ensures[C18] seen_step: m.seenSamples == ite(old(m.seenSamples) < m.minSamples, old(m.seenSamples) + 1, old(m.seenSamples))
+//@   ensures[C18] first_is_sample: old(m.seenSamples) == 0 && m.minSamples > 1 ==> m.value == value
+//@   ensures[C18] between: min(old(m.value), value) <= m.value && m.value <= max(old(m.value), value)
+//@   ensures[C18] nonneg_kept: old(m.value) >= 0.0 && value >= 0.0 ==> m.value >= 0.0
+//@   ensures[C18] returns_value: ret0 == m.value
+//@   ensures[C18] flag: ret1 <==> m.value != old(m.value)
+//@   ensures[C18] config_kept: m.alpha == old(m.alpha)
+//@   assigns m.seenSamples, m.value
+//@   owns[C17]
+
+//@ func (*SimpleExponentialMovingAverage).Add
+//@   requires sample_ok: isFinite(value)
+//@   maintains[C18] m
+//@   ensures[C18] seen_step: m.seenSamples == ite(old(m.seenSamples) < m.minSamples, old(m.seenSamples) + 1, old(m.seenSamples))
+//@   ensures[C18] between: min(old(m.value), value) <= m.value && m.value <= max(old(m.value), value)
+//@   ensures[C18] nonneg_kept: old(m.value) >= 0.0 && value >= 0.0 ==> m.value >= 0.0
+//@   ensures[C18] returns_value: ret0 == m.value
+//@   ensures[C18] flag: ret1 <==> m.value != old(m.value)
+//@   assigns m.seenSamples, m.value
+//@   owns[C17]
+
+//@ func (*SimpleExponentialMovingAverage).Get
+//@   ensures[C18] value: result == m.value
+//@   assigns nothing
+//@   owns[C17]
+
+//@ func (*SimpleExponentialMovingAverage).Reset
+//@   maintains[C18] m
+//@   ensures[C18] like_new: m.seenSamples == 0 && m.value == 0.0 && m.alpha == m.initialAlpha
+//@   assigns m.seenSamples, m.value, m.alpha
+//@   owns[C17]
+
+// ---------------------------------------------------------------------------------------------
+//@ type SimpleMovingVariance
+//@   guarded mu: stdev, normalized
+//@   immutable: average, variance
+//@   inv[C18] parts: this.average != nil && this.variance != nil && this.average != this.variance && inv(this.average) && inv(this.variance)
+//@   inv[C18] nonneg: this.variance.value >= 0.0
+
+//@ func (*SimpleMovingVariance).Add
+//@   requires sample_ok: isFinite(value) && value * value < 1.0e300 && m.average.value * m.average.value < 1.0e300
+//@   maintains[C18] m
+//@   ensures[C18] variance_nonneg: m.variance.value >= 0.0
+//@   ensures[C18] stdev_is_root: m.stdev == sqrt(m.variance.value) && ret0 == m.stdev
+//@   safety[C18]
+//@   owns[C17]
+
+//@ func (*SimpleMovingVariance).Get
+//@   maintains m
+//@   ensures[C18] value: result == m.variance.value && result >= 0.0
+//@   owns[C17]
+
+//@ func (*SimpleMovingVariance).Reset
+//@   maintains[C18] m
+//@   ensures[C18] like_new: m.stdev == 0.0 && m.normalized == 0.0 && m.average.seenSamples == 0 && m.average.value == 0.0 && m.average.alpha == m.average.initialAlpha && m.variance.seenSamples == 0 && m.variance.value == 0.0 && m.variance.alpha == m.variance.initialAlpha
+//@   owns[C17]
+
+// ---------------------------------------------------------------------------------------------
+//@ type WindowlessMovingPercentile
+//@   guarded mu: value, delta, seenCount
+//@   immutable: p, deltaInitial, deltaState
+//@   inv[C18] parts: this.deltaState != nil && inv(this.deltaState)
+
+//@ func (*WindowlessMovingPercentile).Reset
+//@   maintains[C18] m
+//@   ensures[C18] like_new: m.value == 0.0 && m.seenCount == 0 && m.delta == m.deltaInitial
+//@   ensures[C18] state_like_new: m.deltaState.stdev == 0.0 && m.deltaState.normalized == 0.0 && m.deltaState.average.seenSamples == 0 && m.deltaState.average.value == 0.0 && m.deltaState.variance.seenSamples == 0 && m.deltaState.variance.value == 0.0
+//@   owns[C17]
+
+// ---------------------------------------------------------------------------------------------
+// ImmutableSampleWindow: a persistent fold over the samples added. minRTT == MaxInt64 encodes
+// "no RTT yet".
+//@ type ImmutableSampleWindow
+//@   immutable: startTime, minRTT, maxInFlight, sampleCount, sum, didDrop
+//@   inv[C09,C18] wf: this.minRTT >= 1 && this.sampleCount >= 0 && this.sum >= 0
+
+//@ func NewImmutableSampleWindow
+//@   requires args: minRTT >= 0 && sampleCount >= 0 && sum >= 0
+//@   ensures[C09,C18] wf: inv(result)
+//@   ensures[C09,C18] fields: fresh(result) && result.startTime == startTime && result.minRTT == ite(minRTT == 0, MaxInt64, minRTT) && result.sum == sum && result.maxInFlight == maxInFlight && result.sampleCount == sampleCount && result.didDrop == didDrop
+//@   assigns nothing
+
+//@ func NewDefaultImmutableSampleWindow
+//@   ensures[C09,C18] wf: inv(result)
+//@   ensures[C09,C18] empty: fresh(result) && result.minRTT == MaxInt64 && result.sum == 0 && result.maxInFlight == 0 && result.sampleCount == 0 && result.didDrop == false
+//@   assigns nothing
+
+//@ func (*ImmutableSampleWindow).AddSample
+//@   requires rtt_ok: rtt > 0 && s.sum + rtt <= MaxInt64 && s.sampleCount < MaxInt64
+//@   maintains[C09,C18] s
+//@   ensures[C09,C18] wf: inv(result)
+//@   ensures[C09,C18] fold: fresh(result) && result.minRTT == min(s.minRTT, rtt) && result.sum == s.sum + rtt && result.sampleCount == s.sampleCount + 1 && result.maxInFlight == max(s.maxInFlight, maxInFlight) && result.didDrop == s.didDrop
+//@   ensures[C09,C18] receiver_unchanged: s.minRTT == old(s.minRTT) && s.sum == old(s.sum) && s.sampleCount == old(s.sampleCount) && s.maxInFlight == old(s.maxInFlight) && s.didDrop == old(s.didDrop)
+//@   assigns nothing
+
+//@ func (*ImmutableSampleWindow).AddDroppedSample
+//@   maintains[C09,C18] s
+//@   ensures[C09,C18] wf: inv(result)
+//@   ensures[C09,C18] fold: fresh(result) && result.minRTT == s.minRTT && result.sum == s.sum && result.sampleCount == s.sampleCount && result.maxInFlight == max(s.maxInFlight, maxInFlight) && result.didDrop == true
+//@   ensures[C09,C18] receiver_unchanged: s.minRTT == old(s.minRTT) && s.sum == old(s.sum) && s.sampleCount == old(s.sampleCount) && s.maxInFlight == old(s.maxInFlight) && s.didDrop == old(s.didDrop)
+//@   assigns nothing
+
+//@ func (*ImmutableSampleWindow).CandidateRTTNanoseconds
+//@   ensures[C09,C18] value: result == s.minRTT
+//@   assigns nothing
+
+//@ func (*ImmutableSampleWindow).AverageRTTNanoseconds
+//@   maintains s
+//@   ensures[C04,C09] nonneg: result >= 0
+//@   ensures[C09,C18] value: result == ite(s.sampleCount == 0, 0, s.sum / s.sampleCount)
+//@   safety[C04]
+//@   assigns nothing
+
+//@ func (*ImmutableSampleWindow).MaxInFlight
+//@   ensures[C09,C18] value: result == s.maxInFlight
+//@   assigns nothing
+
+//@ func (*ImmutableSampleWindow).SampleCount
+//@   ensures[C09,C18] value: result == s.sampleCount
+//@   assigns nothing
+
+//@ func (*ImmutableSampleWindow).DidDrop
+//@   ensures[C09,C18] value: result == s.didDrop
+//@   assigns nothing
